@@ -186,6 +186,15 @@ func (it *Interp) get(fr *frame, v ssa.Value) AVal {
 	return AVal{}
 }
 
+// markCap: an integer read from a capped field at its cap stands for "cap or more": comparisons that
+// the cap cannot decide are unknown (both branches are explored).
+func (it *Interp) markCap(field string, v AVal) AVal {
+	if c, ok := it.IntCap[field]; ok && v.K == AInt && v.I >= c {
+		v.S = "atleast"
+	}
+	return v
+}
+
 func (it *Interp) capInt(field string, i int64) int64 {
 	if c, ok := it.IntCap[field]; ok && i >= c {
 		return c
@@ -238,7 +247,7 @@ func (it *Interp) block(fr *frame, b *ssa.BasicBlock, prev *ssa.BasicBlock, star
 				if a.K == AFieldPtr {
 					p.reads = append(p.reads, a.S)
 					if v, ok := p.state[a.S]; ok {
-						fr.vals[x] = v
+						fr.vals[x] = it.markCap(a.S, v)
 					} else if it.Tracked[a.S] {
 						fr.vals[x] = AVal{}
 					} else {
@@ -378,6 +387,51 @@ func fieldNameOf(fa *ssa.FieldAddr) string {
 }
 
 func binop(op token.Token, a, b AVal) AVal {
+	if a.K == AInt && b.K == AInt && (a.S == "atleast" || b.S == "atleast") {
+		// a stands for [a.I, +inf) (or b does): decide only what the lower bound decides
+		if a.S == "atleast" && b.S == "atleast" {
+			return AVal{}
+		}
+		flip := map[token.Token]token.Token{token.LSS: token.GTR, token.GTR: token.LSS, token.LEQ: token.GEQ, token.GEQ: token.LEQ, token.EQL: token.EQL, token.NEQ: token.NEQ}
+		lo, k := a.I, b.I
+		if b.S == "atleast" {
+			lo, k = b.I, a.I
+			if f, ok := flip[op]; ok {
+				op = f
+			} else if op != token.ADD {
+				return AVal{}
+			}
+		}
+		switch op { // [lo, inf) op k
+		case token.GTR:
+			if k < lo {
+				return AVal{K: ABool, B: true}
+			}
+		case token.GEQ:
+			if k <= lo {
+				return AVal{K: ABool, B: true}
+			}
+		case token.LSS:
+			if k <= lo {
+				return AVal{K: ABool, B: false}
+			}
+		case token.LEQ:
+			if k < lo {
+				return AVal{K: ABool, B: false}
+			}
+		case token.EQL:
+			if k < lo {
+				return AVal{K: ABool, B: false}
+			}
+		case token.NEQ:
+			if k < lo {
+				return AVal{K: ABool, B: true}
+			}
+		case token.ADD:
+			return AVal{K: AInt, I: a.I + b.I, S: "atleast"}
+		}
+		return AVal{}
+	}
 	if a.K == AInt && b.K == AInt {
 		switch op {
 		case token.ADD:
@@ -466,7 +520,7 @@ func (it *Interp) doCall(fr *frame, call *ssa.Call, p *path, depth int, k func(p
 	// atomics on tracked fields
 	if strings.HasPrefix(name, "sync/atomic.Load") && len(args) == 1 && args[0].K == AFieldPtr {
 		p.reads = append(p.reads, args[0].S)
-		k(p, p.state[args[0].S], false)
+		k(p, it.markCap(args[0].S, p.state[args[0].S]), false)
 		return
 	}
 	if strings.HasPrefix(name, "sync/atomic.Add") && len(args) == 2 && args[0].K == AFieldPtr {
